@@ -1,2 +1,71 @@
-(* Properties_C11.v -- placeholder, theorems follow *)
-From TP Require Import Term.
+(* Properties_C11.v — C11: mode switches leave the last requested mode in effect
+   and respect capabilities. *)
+From TP Require Import Base Elem Term VT Oracle P_Sync P_Step P_Bytes P_Run P_Props Tie_Output.
+Local Open Scope N_scope.
+
+(* After any well-formed history from any initial terminal (modes unknown),
+   for all capability combinations: cursor visibility, the two mouse modes, the
+   active buffer and the title of the terminal are the fold of the requests
+   over the initial modes, where modes_after says: show/hide set DECTCEM;
+   enable/disable set and reset exactly the one mode the behaviour selects
+   (1000 if basic, else 1003 if all-motion, else nothing); buffers set mode 47;
+   a title is taken iff BEL or ST form is supported. *)
+Theorem C11_modes :
+  forall cfg beh, (b_unicode_all beh = true -> unicode_all cfg = true) ->
+  forall v0 h, vt0_ok v0 -> wf_hist beh init_tstate h ->
+    modes_of (snd (hrun cfg beh init_tstate v0 h)) = hist_modes beh h (modes_of v0).
+Proof.
+  intros cfg beh Huni v0 h H0 Hwf.
+  exact (modes_hrun cfg beh Huni h init_tstate v0 (sync_init beh v0 H0) Hwf).
+Qed.
+Print Assumptions C11_modes.
+
+(* the last request wins, even though repeated requests are elided *)
+Theorem C11_last_request_wins :
+  forall beh m,
+    (forall o, fst (fst (fst (fst (modes_after beh (modes_after beh m o) Show)))) = true) /\
+    (forall o, fst (fst (fst (fst (modes_after beh (modes_after beh m o) Hide)))) = false) /\
+    (forall o, snd (fst (modes_after beh (modes_after beh m o) BufAlt)) = true) /\
+    (forall o, snd (fst (modes_after beh (modes_after beh m o) BufNormal)) = false).
+Proof.
+  intros beh [[[[vi m0] m3] ab] ti].
+  repeat split; intros o; destruct o; cbn;
+    repeat match goal with |- context[match ?x with _ => _ end] => destruct x end; reflexivity.
+Qed.
+
+(* capabilities: nothing at all is sent when the behaviour supports none, and
+   the form sent is the supported one *)
+Theorem C11_capabilities :
+  forall beh st t,
+    (b_basic_mouse beh = false -> b_all_mouse beh = false ->
+       obytes beh st MouseOn = [] /\ obytes beh st MouseOff = []) /\
+    (b_basic_mouse beh = true ->
+       obytes beh st MouseOn = render (Csi true [1000] 104) /\
+       obytes beh st MouseOff = render (Csi true [1000] 108)) /\
+    (b_basic_mouse beh = false -> b_all_mouse beh = true ->
+       obytes beh st MouseOn = render (Csi true [1003] 104) /\
+       obytes beh st MouseOff = render (Csi true [1003] 108)) /\
+    (b_title_bel beh = false -> b_title_st beh = false -> obytes beh st (Title t) = []) /\
+    (b_title_bel beh = true -> obytes beh st (Title t) = render (Osc (50 :: 59 :: t) true)) /\
+    (b_title_bel beh = false -> b_title_st beh = true ->
+       obytes beh st (Title t) = render (Osc (50 :: 59 :: t) false)).
+Proof.
+  intros beh st t. unfold obytes. cbn [step snd]. unfold mouse_cmd, mouse_mode, title_cmd.
+  repeat split; intros; repeat match goal with H : _ = _ |- _ => rewrite H end;
+    cbn [render_all flat_map]; rewrite ?app_nil_r; reflexivity.
+Qed.
+Print Assumptions C11_capabilities.
+
+(* visibility requests are elided only when the belief says they are in
+   effect, and the belief is true (C08) *)
+Theorem C11_visibility_bytes :
+  forall beh st (want : bool),
+    obytes beh st (if want then Show else Hide) =
+    match ts_vis st with
+    | Some b => if Bool.eqb b want then [] else render (dectcem want)
+    | None => render (dectcem want)
+    end.
+Proof.
+  intros beh st want. unfold obytes. destruct want; cbn [step]; unfold show_hide; cbn [snd];
+    destruct (ts_vis st) as [[|]|]; cbn [Bool.eqb negb render_all flat_map]; rewrite ?app_nil_r; reflexivity.
+Qed.
